@@ -354,4 +354,32 @@ pub proof fn lemma_dec_from_shape(a: AArena<2>, in_dim: usize)
 {
     assert forall|i: usize| #![trigger a[i].value] a.dom().contains(i) && !a[i].isleaf implies a[i].value.aff.mat.nrows() == 1 by { lemma_shape_one_row(a, in_dim, i); }
 }
+// the two things the unconditional statement rests on: Infeasible LP answers are right, and no input reaches a node cached infeasible at entry
+pub open spec fn lp_sound(in_dim: usize) -> bool {
+    forall|q: Polytope, x: V| #![trigger q.sat(x)] lp_status(q) is Infeasible && x.len() == in_dim ==> !q.sat(x)
+}
+pub open spec fn entry_marks_sound(a0: AArena<2>, root: usize) -> bool {
+    forall|c: usize, h: Map<usize, nat>, x: V| #![trigger reaches(a0, h, root, x, c)] a0.dom().contains(c) && a0[c].value.state is Infeasible && ranked_down(a0, h) ==> !reaches(a0, h, root, x, c)
+}
+pub proof fn lemma_unconditional(a0: AArena<2>, a: AArena<2>, root: usize, b: Set<usize>, vp: Map<usize, Polytope>, in_dim: usize)
+    requires blame_ok(a0, b, vp), lp_sound(in_dim), entry_marks_sound(a0, root),
+        forall|c: usize, h0: Map<usize, nat>| #![trigger vp[c], ranked_down(a0, h0)] vp.dom().contains(c) && ranked_down(a0, h0) ==> region_covers(a0, h0, root, c, vp[c], in_dim),
+        forall|h0: Map<usize, nat>, h1: Map<usize, nat>, x: V| #![trigger tree_fn(a0, h0, root, x), tree_fn(a, h1, root, x)]
+            ranked_down(a0, h0) && ranked_down(a, h1) && !blamed_path(a0, h0, root, b, x) ==> tree_fn(a, h1, root, x) == tree_fn(a0, h0, root, x),
+    ensures forall|h0: Map<usize, nat>, h1: Map<usize, nat>, x: V| #![trigger tree_fn(a0, h0, root, x), tree_fn(a, h1, root, x)]
+            ranked_down(a0, h0) && ranked_down(a, h1) && x.len() == in_dim ==> tree_fn(a, h1, root, x) == tree_fn(a0, h0, root, x)
+{
+    assert forall|h0: Map<usize, nat>, h1: Map<usize, nat>, x: V| #![trigger tree_fn(a0, h0, root, x), tree_fn(a, h1, root, x)]
+            ranked_down(a0, h0) && ranked_down(a, h1) && x.len() == in_dim implies tree_fn(a, h1, root, x) == tree_fn(a0, h0, root, x) by {
+        if blamed_path(a0, h0, root, b, x) {
+            let c = choose|c: usize| b.contains(c) && #[trigger] reaches(a0, h0, root, x, c);
+            assert(b.contains(c));
+            if a0[c].value.state is Infeasible { assert(!reaches(a0, h0, root, x, c)); }
+            else {
+                assert(region_covers(a0, h0, root, c, vp[c], in_dim));
+                assert(vp[c].sat(x));
+            }
+        }
+    }
+}
 // ---- end elim_region_spec ----
